@@ -53,6 +53,7 @@ AccInit == [bad |-> {},          \* <<phase, op>> : the API answered badly (5xx 
             badRecorded |-> TRUE,\* every failed check was recorded with its case, request and reproduction command
             times |-> <<>>,      \* arrival times (ms) of the requests, only kept when a rate limit is configured
             rateBad |-> FALSE,
+            deaths |-> 0,        \* threads that died with an uncaught exception (each is a problem that must be reported)
             exit |-> -1, nreq |-> 0]
 
 Init == /\ t \in 1..Len(Runs) /\ l = 1 /\ mon = MonInit /\ acc = AccInit /\ why = ""
@@ -101,6 +102,7 @@ Step ==
        [] x.e = "CTRLC" -> acc' = [acc EXCEPT !.ctrlc = TRUE] /\ UNCHANGED mon
        [] x.e = "FAULT" -> acc' = [acc EXCEPT !.faults = @ \cup {<<x.ph, x.op>>}] /\ UNCHANGED mon
        [] x.e = "CRASH" -> acc' = [acc EXCEPT !.crashed = TRUE] /\ UNCHANGED mon
+       [] x.e = "TDEATH" -> acc' = [acc EXCEPT !.faults = @ \cup {<<x.ph, 0>>}, !.deaths = @ + 1] /\ UNCHANGED mon
        [] x.e = "X" -> acc' = [acc EXCEPT !.exit = x.code] /\ UNCHANGED mon
        [] OTHER -> UNCHANGED <<mon, acc>>       \* informational lines (STEP, WEXIT, COUNT)
 
@@ -134,6 +136,15 @@ SchemaErrorsReported == (AtEnd /\ ~Cut) =>
     \A i \in 1..Len(Hdr.invalid) : \A ph \in {Fuzzing} :
         (Enabled(ph) /\ \E x \in acc.pf : x[1] = ph /\ x[2] # "skip") =>
             (\E r \in acc.rep : r[1] = ph /\ r[2] = Hdr.invalid[i] /\ IsBad(r[3])) /\ acc.exit # 0
+(* a failed / errored scenario that WAS delivered always counts, also when the run is then cut short by --max-failures:
+   only an external stop / Ctrl-C exempts the phase status and the exit code *)
+ExternallyInterrupted == acc.stopped \/ acc.ctrlc
+DeliveredFailureCounts == (AtEnd /\ ~ExternallyInterrupted) =>
+    \A r \in acc.rep : IsBad(r[3]) => PhaseBad(r[1]) /\ acc.exit # 0
+UnserializableReported == (AtEnd /\ ~Cut) =>
+    \A i \in 1..Len(Hdr.weird) : \A ph \in {3, 4} :
+        (Enabled(ph) /\ \E x \in acc.pf : x[1] = ph /\ x[2] # "skip") =>
+            (\E r \in acc.rep : r[1] = ph /\ r[2] = Hdr.weird[i] /\ IsBad(r[3])) /\ acc.exit # 0
 FailuresRecordedWithRequest == acc.badRecorded
 ZeroMeansClean == (AtEnd /\ ~Cut /\ acc.exit = 0) =>
     /\ Problems = {} /\ acc.nfe = {}
@@ -167,29 +178,30 @@ UniqueInputs == Hdr.unique => ~acc.dup
    arrival times are taken by the API, the limiter works on send times) *)
 RateRespected == ~acc.rateBad
 
-AllOK == /\ ProtocolOK /\ EndProtocolOK /\ NoCrash /\ NoProblemLost /\ SchemaErrorsReported /\ FailuresRecordedWithRequest
+AllOK == /\ ProtocolOK /\ EndProtocolOK /\ NoCrash /\ NoProblemLost /\ DeliveredFailureCounts /\ SchemaErrorsReported /\ UnserializableReported /\ FailuresRecordedWithRequest
          /\ ZeroMeansClean /\ ExitCodeSet /\ MaxExamplesRespected /\ MaxFailuresRespected /\ LaterPhasesSkipped
          /\ NoScenarioAfterStop /\ AtMostOneSendAfterStop /\ UniqueInputs /\ RateRespected
 
-FirstViolated ==
-    IF ~ProtocolOK THEN "C11 ProtocolOK: " \o mon.why
-    ELSE IF ~EndProtocolOK THEN "C11 EndProtocolOK"
-    ELSE IF ~NoCrash THEN "C11 NoCrash"
-    ELSE IF ~NoProblemLost THEN "C05 NoProblemLost"
-    ELSE IF ~SchemaErrorsReported THEN "C05 SchemaErrorsReported"
-    ELSE IF ~FailuresRecordedWithRequest THEN "C05 FailuresRecordedWithRequest"
-    ELSE IF ~ZeroMeansClean THEN "C05 ZeroMeansClean"
-    ELSE IF ~ExitCodeSet THEN "C05 ExitCodeSet"
-    ELSE IF ~MaxExamplesRespected THEN "C12 MaxExamplesRespected"
-    ELSE IF ~MaxFailuresRespected THEN "C12 MaxFailuresRespected"
-    ELSE IF ~LaterPhasesSkipped THEN "C12 LaterPhasesSkipped"
-    ELSE IF ~NoScenarioAfterStop THEN "C12 NoScenarioAfterStop"
-    ELSE IF ~AtMostOneSendAfterStop THEN "C12 AtMostOneSendAfterStop"
-    ELSE IF ~UniqueInputs THEN "C12 UniqueInputs"
-    ELSE IF ~RateRespected THEN "C12 RateRespected"
-    ELSE ""
+ViolatedClauses ==
+    (IF ~ProtocolOK THEN {"C11 ProtocolOK: " \o mon.why} ELSE {}) \cup
+    (IF ~EndProtocolOK THEN {"C11 EndProtocolOK"} ELSE {}) \cup
+    (IF ~NoCrash THEN {"C11 NoCrash"} ELSE {}) \cup
+    (IF ~NoProblemLost THEN {"C05 NoProblemLost"} ELSE {}) \cup
+    (IF ~DeliveredFailureCounts THEN {"C05 DeliveredFailureCounts"} ELSE {}) \cup
+    (IF ~SchemaErrorsReported THEN {"C05 SchemaErrorsReported"} ELSE {}) \cup
+    (IF ~UnserializableReported THEN {"C05 UnserializableReported"} ELSE {}) \cup
+    (IF ~FailuresRecordedWithRequest THEN {"C05 FailuresRecordedWithRequest"} ELSE {}) \cup
+    (IF ~ZeroMeansClean THEN {"C05 ZeroMeansClean"} ELSE {}) \cup
+    (IF ~ExitCodeSet THEN {"C05 ExitCodeSet"} ELSE {}) \cup
+    (IF ~MaxExamplesRespected THEN {"C12 MaxExamplesRespected"} ELSE {}) \cup
+    (IF ~MaxFailuresRespected THEN {"C12 MaxFailuresRespected"} ELSE {}) \cup
+    (IF ~LaterPhasesSkipped THEN {"C12 LaterPhasesSkipped"} ELSE {}) \cup
+    (IF ~NoScenarioAfterStop THEN {"C12 NoScenarioAfterStop"} ELSE {}) \cup
+    (IF ~AtMostOneSendAfterStop THEN {"C12 AtMostOneSendAfterStop"} ELSE {}) \cup
+    (IF ~UniqueInputs THEN {"C12 UniqueInputs"} ELSE {}) \cup
+    (IF ~RateRespected THEN {"C12 RateRespected"} ELSE {})
 
 (* reporting invariant: always TRUE; one line per accepted run, one per first violation of a run *)
-Report == /\ IF AllOK THEN TRUE ELSE PrintT(<<"REJECT", t, l - 1, FirstViolated>>)
+Report == /\ IF AllOK THEN TRUE ELSE \A c \in ViolatedClauses : PrintT(<<"REJECT", t, l - 1, c>>)
           /\ IF AtEnd /\ AllOK THEN PrintT(<<"ACCEPT", t, Cardinality(Problems), mon.nbad>>) ELSE TRUE
 =============================================================================
